@@ -265,6 +265,53 @@ theorem fingerprinted_hostname_agrees (E : Env) (hostOf : Str → Option Str) (s
       | cons d ds =>
         simp only [orNone, List.isEmpty_cons, Bool.false_eq_true, if_false]
 
+/-! ## URLs the parser refuses (FX-C07-FPTOTAL)
+
+`fingerprint_url` used to raise on them (it unpacked the string `normalize_url` returned); it now
+returns that string, `url.lower()`.  "The host of `fingerprint_url(u)`" is then the host the
+standard parser reads in that string after a scheme is ensured — nothing when it refuses it. -/
+
+/-- **the fingerprint pair on an URL the parser refuses**: `fingerprint_url(u)` is `u.lower()`
+under both `unsplit` (no exception, no tuple: no hostname component), and for an URL that needs
+no cleaning and carries no redirection (`hclean`: the string the helper parses is
+`ensure_protocol(u.lower())`) the helper answers `None` exactly when no host can be read in that
+result — the parser refuses it, or reads an empty host.  (A refused *port* — `http://a.com:99999/` —
+leaves a host to read on both sides: neither helper reads `.port`; which host is compared on
+parseable URLs only.) -/
+theorem fingerprinted_hostname_unparseable (E : Env) (hostOf : Str → Option Str) (sfx : Bool)
+    (url : Str) (hp : E.parse (prepared E.platform true (lower url)).1 = none)
+    (hclean : helperString true (lower url) = ensureProtocol (lower url) httpStr) :
+    fingerprintUrlSplit E sfx url = .ok (.inl (lower url)) ∧
+    fingerprintUrl E sfx url = .ok (lower url) ∧
+    fingerprintedHost E sfx url = .ok none ∧
+    (getFingerprintedHostname E hostOf true sfx url = .ok none ↔
+      hostAfterEnsure hostOf (lower url) = none) := by
+  have hs : fingerprintUrlSplit E sfx url = .ok (.inl (lower url)) := by
+    simp only [fingerprintUrlSplit, normalizeUrlSplit, hp]
+  refine ⟨hs, by unfold fingerprintUrl; rw [hs]; rfl,
+    by simp only [fingerprintedHost, normalizeUrlSplit, hp], ?_⟩
+  have hg : getFingerprintedHostname E hostOf true sfx url =
+      match hostOf (ensureProtocol (lower url) httpStr) with
+      | none => .ok none
+      | some h => if h.isEmpty then .ok none else (fingerprintHostname E sfx h).map some := by
+    unfold getFingerprintedHostname
+    show (match hostOf (helperString true (lower url)) with
+      | none => Except.ok none
+      | some h => if h.isEmpty then .ok none else (fingerprintHostname E sfx h).map some) = _
+    rw [hclean]
+  rw [hg]
+  unfold hostAfterEnsure
+  cases hostOf (ensureProtocol (lower url) httpStr) with
+  | none => simp [orNone]
+  | some h =>
+    cases h with
+    | nil => simp [orNone]
+    | cons c cs =>
+      simp only [orNone, List.isEmpty_cons, Bool.false_eq_true, if_false]
+      cases fingerprintHostname E sfx (c :: cs) with
+      | error e => simp [Except.map]
+      | ok v => simp [Except.map]
+
 /-! ## bare hostnames -/
 
 /-- the cleaned form of a bare hostname is a bare hostname; it is what `normalize_hostname`
@@ -541,10 +588,10 @@ minus the scheme stem** (the fingerprint has no scheme), given the round trip of
 errors of `fingerprint_url` are errors of the variant -/
 theorem stems_agree_fp_of_reparse (sp : Str → Option (Str × Str)) (split5 : Str → Option Parts)
     (E : Env) (sa sfx : Bool) (url : Str) (t : Split) (s : Str)
-    (ht : fingerprintUrlSplit E sfx url = .ok t)
+    (ht : fingerprintUrlSplit E sfx url = .ok (.inr t))
     (hs : fingerprintUrl E sfx url = .ok s)
     (hr : ReparseOk split5 s t) :
-    fingerprintedLruStems sp E sa sfx url = .ok (stemsOfSplit sp sa t) ∧
+    fingerprintedLruStems sp E sa sfx url = .ok (some (stemsOfSplit sp sa t)) ∧
     (lruStemsOfUrl sp split5 sa s).map (minusScheme t) = some (stemsOfSplit sp sa t) := by
   refine ⟨?_, stems_of_reparse sp split5 sa s t hr⟩
   simp only [fingerprintedLruStems, ht]
